@@ -21,6 +21,8 @@ checks = {
          "TLC model checking of PathRes + API replay comparing rendered descriptions + git rev-parse as judge on binary runs", "4-C08"),
  "C09": (MC, "Order is the only nondeterminism of Scan: TLC enumerates every permutation; every one is replayed into sizes.Graph and all orders of one graph must agree with each other and with the oracle.",
          "TLC enumeration of all delivery orders + relational API replay + layout/date variants through the binary", "4-C09"),
+ "C10": ("fault_enumeration", "CliRun.tla models the run as a sequence of git invocations each of which may fail before/in/after its output (AllOrNothing, termination; refuted for the unrepaired code). On the real binary a fault-injecting git first on PATH enumerates every invocation x output offsets x failure modes (exit status, SIGKILL, SIGTERM, SIGPIPE, early stdin close); every reachable object is deleted in turn; shallow marker, missing repository, invalid options, gitconfig values and ROOTs; every run (exit status, stdout, stderr, invocation log) is judged by TLC (CliJudge) against the fault-free report.",
+         "fault enumeration with a fake git on the real binary, runs judged by TLC against CliRun's predicates", "4-C10"),
  "C11": (MC, "Output.tla lists the 22 metrics with reference values as exact rationals and states the visibility / marker / header / no-problems rules; OutputJudge judges in BigNat arithmetic what the real TableString, HistorySize.JSON and json.MarshalIndent produce for boundary-structured HistorySize vectors x 12 thresholds x styles (value cells judged with Human!Admissible against the JSON v1 value); the float-valued v2 fields and monotonicity in the threshold are compared harness-side.",
          "boundary vectors rendered by the real renderers and judged by TLC (Output/Human specs, exact arithmetic)", "4-C11"),
  "C12": (MC, "Human.tla states the rounding rules in exact BigNat arithmetic (largest prefix, decimals from the whole part, half-unit bound with both neighbours admissible on ties, >=3 significant digits, <=5 characters, monotone magnitude); HumanMC lets TLC generate the neighbourhoods of every rounding/precision/prefix boundary and checks satisfiability; every value (plus stratified random 64-bit values) is rendered by the real Humaner.FormatNumber and judged by TLC (HumanJudge), neighbours for monotonicity.",
@@ -33,7 +35,6 @@ checks = {
          "TLC model checking of the meter + TLC trace validation of timing-fuzzed real meter runs + TLC-judged CLI progress counts", "4-C18"),
 }
 pending = {
- "C10": "check under construction in this session",
  "C13": "check under construction in this session",
  "C14": "check under construction in this session",
  "C16": "check under construction in this session", "C17": "check under construction in this session",
